@@ -617,8 +617,10 @@ func (x *c05bRun) reg(ownerOrd int, ttl, max int64, ren bool) {
 func (x *c05bRun) batchReg(ttl, max int64, ren bool) {
 	x.now++
 	k := x.k
+	// every other batch token is an ORPHAN (as the batch tokens of auth-method logins are): it has no parent whose token
+	// index could carry the lease
 	cl, resp := vhReq(k.c, logical.UpdateOperation, "auth/token/create", k.root,
-		map[string]any{"type": "batch", "ttl": "700h", "policies": []string{"c05bpol"}})
+		map[string]any{"type": "batch", "ttl": "700h", "policies": []string{"c05bpol"}, "no_parent": x.now%2 == 0})
 	res := c05bErrClass(resp, cl)
 	if cl == "ok" && resp != nil && resp.Auth != nil {
 		bt := resp.Auth.ClientToken
